@@ -89,6 +89,7 @@ type Parser struct {
 	compileSwitches         map[string]string
 	constants               map[string]string
 	enableEnvironmentErrors bool
+	verifState
 }
 
 // New creates a new Poryscript AST Parser.
@@ -163,6 +164,7 @@ func (p *Parser) nextToken() {
 	p.peek2Token = p.peek3Token
 	p.peek3Token = p.peek4Token
 	p.peek4Token = p.l.NextToken()
+	p.verifPull()
 }
 
 func (p *Parser) peekTokenIs(expectedType token.Type) bool {
